@@ -525,3 +525,95 @@ Section Refine5.
       + destruct (arun a evs) as [a2 c2]. destruct IH as (I1 & I2 & I3). split; [constructor; auto|]. split; [exact I2|]. rewrite I3, Hc1, app_nil_r. reflexivity.
   Qed.
 End Refine5.
+
+(* ---------- C13 (W2): the bytes of an Enter that dispatches a command *)
+Definition cmd_bytes (hs : list hop) : list N :=
+  let h := Framing.hops_bytes hs in h ++ (if Framing.needs_break h then [13; 10] else []).
+
+Section EnterBytes.
+  Variable feats : features.
+  Variable cs : cmdset.
+  Variable handler : nat -> list N -> list (list N) -> list hop.
+  Hypothesis Hcs : cmdset_ok cs.
+  Variables cp hc : nat.
+  Notation SRel := (SRel cp hc).
+
+  Lemma process_command_bytes name args s : cs_parse cs name args = None ->
+    exists s' O, process_command okT cs handler name args s = (Ok tt, s') /\ out (sk s') = out (sk s) ++ O
+      /\ ops_bytes O = cmd_bytes (handler (length (hcalls s)) name args).
+  Proof.
+    intros Hp. unfold process_command. rewrite Hp, bind_get, bind_modify. unfold new_writer. rewrite bind_modify.
+    set (s2 := set_newp None (set_wst w0 (log_call (name, args) s))).
+    set (hs := handler (length (hcalls s)) name args).
+    destruct (run_hops_ok hs s2) as (s3 & O3 & E3 & F3 & Out3 & B3 & W3 & N3).
+    unfold bind at 1. unfold catch. rewrite E3. rewrite bind_get.
+    set (s4 := match newp s3 with Some p => set_prompt_f p s3 | None => s3 end).
+    assert (E4 : (match newp s3 with Some p => modify (set_prompt_f p) | None => ret tt end) s3 = (Ok tt, s4)) by (subst s4; destruct (newp s3); reflexivity).
+    unfold bind at 1. rewrite E4.
+    assert (Hd : is_dirty (wst s3) = Framing.needs_break (Framing.hops_bytes hs)) by (rewrite W3; unfold s2, set_newp, set_wst; cbn [wst]; apply is_dirty_hops).
+    assert (Hs4 : sk s4 = sk s3) by (subst s4; destruct (newp s3); reflexivity).
+    assert (E5 : exists s5, (if is_dirty (wst s3) then wr okT CRLF else ret tt) s4 = (Ok tt, s5)
+                 /\ out (sk s5) = out (sk s4) ++ (if Framing.needs_break (Framing.hops_bytes hs) then wop CRLF else [])).
+    { rewrite Hd. destruct (Framing.needs_break (Framing.hops_bytes hs)).
+      - destruct (wr_ok CRLF s4) as (s5 & E & (_&_&_&_&_&_&_&a8)). exists s5. auto.
+      - exists s4. rewrite app_nil_r. auto. }
+    destruct E5 as (s5 & E5 & O5). unfold bind at 1. rewrite E5.
+    destruct (fl_ok s5) as (s6 & E6 & (_&_&_&_&_&_&_&h8)). unfold bind at 1. rewrite E6.
+    exists s6. eexists. split; [reflexivity|]. split.
+    - rewrite h8, O5, Hs4, Out3. unfold s2, set_newp, set_wst, log_call; cbn [sk]. rewrite <- !app_assoc. reflexivity.
+    - rewrite !ops_bytes_app, B3. unfold cmd_bytes. fold hs. f_equal.
+      destruct (Framing.needs_break (Framing.hops_bytes hs)); [rewrite ops_bytes_wop; reflexivity|reflexivity].
+  Qed.
+
+  Theorem on_enter_bytes s a n args : SRel s a -> dispatch feats cs a = [(n, args)] ->
+    exists s' O, on_enter okT feats cs handler s = (Ok tt, s') /\ out (sk s') = out (sk s) ++ O /\
+      ops_bytes O = Framing.frame_enter (handler (acalls a) n args) (last_prompt (aprompt a) (handler (acalls a) n args)) /\ last_is_flush O.
+  Proof.
+    intros HS Hd.
+    destruct (on_enter okT feats cs handler s) as [r s'] eqn:E.
+    destruct (on_enter_refines feats cs handler cp hc s a r s' HS E) as (-> & HS' & _ & _).
+    exists s'. unfold on_enter in E. unfold bind at 1 in E.
+    destruct (wr_ok CRLF s) as (s1 & E1 & A1). rewrite E1 in E.
+    destruct (SRel_tail cp hc _ _ _ _ _ (Tail_wr CRLF) HS E1) as (_ & HS1 & c1 & g1).
+    rewrite bind_get in E. pose proof HS1 as (R & H & Hp & Hc & Hnf & Hv & Ha).
+    pose proof (Rep_ibytes cp _ _ R) as Hib. pose proof (Rep_valid _ _ _ R) as Hvt.
+    assert (Hpsh : exists s2, (if f_hist feats then mdo h <- lift_opt (hist_push (hist s1) (text (ed s1))); modify (set_hist h) else ret tt) s1 = (Ok tt, s2)
+                 /\ sk s2 = sk s1 /\ prompt s2 = prompt s1 /\ hcalls s2 = hcalls s1).
+    { destruct (f_hist feats); [|exists s1; auto]. destruct (push_refines _ _ _ (text (ed s1)) H) as (h' & Ep & _). rewrite Ep, bind_lift_some. exists (set_hist h' s1). auto. }
+    destruct Hpsh as (s2 & Ep & k2 & p2 & c2). unfold bind at 1 in E. rewrite Ep in E.
+    destruct (tokens_inplace_fun (text (ed s1)) Hnf) as (buf' & raw & empty & Et & Etok). rewrite Et, bind_lift_some, bind_modify in E.
+    set (s3 := set_ed {| cap := cap (ed s1); text := buf'; cursor := cursor (ed s1) |} s2) in *.
+    (* process_input = process_command on the dispatched tokens *)
+    unfold dispatch in Hd. rewrite Hib in Hd.
+    assert (Ets : tokens_iter raw empty = n :: args /\ cs_parse cs n args = None /\
+                  (f_help feats = false \/ exists hr, help_request n args = Some hr /\ hr = None)).
+    { rewrite Etok. destruct (tokens_fun (text (ed s1))) as [|nm rest] eqn:Etf; [discriminate|].
+      assert (Hargs : Forall valid_tok rest). { pose proof (tokens_fun_valid _ Hvt) as V. rewrite Etf in V. inversion V; assumption. }
+      destruct (help_request_some nm rest Hargs) as [hr Hr]. rewrite Hr in Hd.
+      destruct (f_help feats) eqn:Ef; cbn [andb] in Hd.
+      - destruct hr as [req|]; [discriminate|]. destruct (cs_parse cs nm rest) eqn:Epp; [discriminate|]. injection Hd as <- <-. eauto 10.
+      - destruct (cs_parse cs nm rest) eqn:Epp; [discriminate|]. injection Hd as <- <-. auto. }
+    destruct Ets as (Ets & Epar & Ehelp).
+    assert (Epi : process_input okT feats cs handler raw empty s3 = process_command okT cs handler n args s3).
+    { unfold process_input. rewrite Ets. cbn [from_tokens]. destruct Ehelp as [-> | (hr & Hr & ->)]; [reflexivity|].
+      destruct (f_help feats); [rewrite Hr, bind_lift_some|]; reflexivity. }
+    destruct (process_command_bytes n args s3 Epar) as (s4 & O4 & E4 & Out4 & B4).
+    unfold bind at 1 in E. unfold catch in E. rewrite Epi, E4 in E. rewrite bind_modify in E.
+    set (s5 := set_ed (ed_clear (ed s4)) s4) in *.
+    unfold bind at 1 in E. unfold reraise at 1 in E. rewrite bind_get in E.
+    destruct (wr_ok (prompt s5) s5) as (s6 & E6 & A6). unfold bind at 1 in E. rewrite E6 in E.
+    destruct (fl_ok s6) as (s7 & E7 & A7). rewrite E7 in E. injection E as <-.
+    destruct (process_command_run cs handler n args s3 Epar) as (s4' & E4' & _ & _ & _ & _ & Hpr). rewrite E4 in E4'. injection E4' as <-.
+    eexists. split; [reflexivity|].
+    destruct A1 as (_&_&_&_&_&_&_&a8). destruct A6 as (_&_&_&_&_&_&_&b8). destruct A7 as (_&_&_&_&_&_&_&d8).
+    split; [|split].
+    - rewrite d8, b8. unfold s5; cbn [sk set_ed]. rewrite Out4. unfold s3; cbn [sk set_ed]. rewrite k2, a8, <- !app_assoc. reflexivity.
+    - rewrite !ops_bytes_app, !ops_bytes_wop, B4. cbn [ops_bytes flat_map op_bytes]. rewrite app_nil_r.
+      unfold Framing.frame_enter, cmd_bytes.
+      assert (Ecall : length (hcalls s3) = acalls a) by (unfold s3; cbn; congruence).
+      assert (Eprm : prompt s5 = last_prompt (aprompt a) (handler (acalls a) n args)).
+      { unfold s5; cbn [prompt set_ed]. rewrite Hpr. unfold s3; cbn [prompt hcalls set_ed]. rewrite p2, c2, Hp, Hc. reflexivity. }
+      fold s5. rewrite Ecall, Eprm. unfold CRLF. rewrite <- !app_assoc. reflexivity.
+    - exists (wop CRLF ++ O4 ++ wop (prompt s5)). rewrite <- !app_assoc. reflexivity.
+  Qed.
+End EnterBytes.
